@@ -1,1 +1,68 @@
-From PdfV Require Import Base.Prelude.
+(** Properties/C04.v — "Serialised objects parse back to the same value".  The round trip is a corollary of
+    conformance of the writer: what [ser] writes is a spelling in the sense of C03 ([spells] + [renders]). *)
+From PdfV Require Import Base.Prelude Base.DecProofs Gen.Generated Lex.Lexer Lex.StrLexer Lex.LexProofs Lex.StrProofs
+  Syn.Prim Syn.Utf8 Syn.Parser Syn.Serialize Syn.Spells Syn.ParserProofs Syn.NameProofs Syn.RenderProofs Syn.SerProofs.
+
+(** the writer is conformant: for every storable value the bytes it writes are the items [items_of v] (which denote v),
+    separated and delimited as the standard requires, whatever non-regular byte follows *)
+Theorem C04_ser_spells : forall v, storable v ->
+  exists core, ser v = Ok (core ++ trail v) /\ spells v (items_of v) /\
+    forall tl, boundary tl -> renders (items_of v) (core ++ trail v ++ tl) (trail v ++ tl).
+Proof. exact ser_spells. Qed.
+Print Assumptions C04_ser_spells.
+
+(** round trip in any context whose first byte after the value is not a regular character (that is what every writer
+    context provides: a newline before endobj, the newline after a dictionary value, the space or bracket after an
+    array element, the space before an operator); the parser stops exactly behind the value *)
+Theorem C04_roundtrip : forall v, storable v -> vdepth v <= MAX_DEPTH ->
+  forall R cx tl, boundary tl ->
+  exists core, ser v = Ok (core ++ trail v) /\
+    (follow_ok [] (mkLx (lenN core) (trail v ++ tl)) -> nostream_at [] (mkLx (lenN core) (trail v ++ tl)) ->
+     parse_ctx R cx F_ANY MAX_DEPTH (mkLx 0 ((core ++ trail v) ++ tl)) = Ok (v, mkLx (lenN core) (trail v ++ tl))).
+Proof. exact ser_parse_roundtrip. Qed.
+Print Assumptions C04_roundtrip.
+
+Theorem C04_roundtrip_eof : forall v, storable v -> vdepth v <= MAX_DEPTH -> forall R,
+  exists b, ser v = Ok b /\ parse R F_ANY b = Ok v.
+Proof. exact ser_parse_eof. Qed.
+Print Assumptions C04_roundtrip_eof.
+
+(** pieces: every 32-bit integer, every name (any bytes of a UTF-8 string), every byte string in both string forms *)
+Theorem C04_integer : forall z, (-2147483648 <= z <= 2147483647)%Z -> int_word (dec_of_Z z) z.
+Proof. exact ser_int_word. Qed.
+Theorem C04_decimal : forall n, forallb isdig (dec_of_N n) = true /\ dec_of_N n <> [] /\ N_of_dec (dec_of_N n) = n.
+Proof. exact dec_of_N_spec. Qed.
+Theorem C04_name : forall s, wf_bytes s -> name_enc s (flat_map ser_name_byte s).
+Proof. exact ser_name_enc. Qed.
+Theorem C04_string_literal : forall closing s, Forall (fun b => b < 128) s ->
+  spell_run closing 0 s (flat_map ser_str_byte s) 0.
+Proof. exact ser_string_literal_run. Qed.
+Theorem C04_string_hex : forall s, wf_bytes s ->
+  hex_run s (flat_map (fun b => [hexdig_lower (b / 16); hexdig_lower (b mod 16)]) s).
+Proof. exact ser_string_hex_run. Qed.
+Print Assumptions C04_string_hex.
+
+(** serialising never panics — for every value, storable or not *)
+Theorem C04_ser_no_panic : forall v s, ser v <> Panic s.
+Proof. exact ser_no_panic. Qed.
+Print Assumptions C04_ser_no_panic.
+
+(** non-vacuity: a nested value is storable and round-trips *)
+Example C04_nonvacuous :
+  let v := PDict [([75], PArr [PInt (-5); PStr [40; 200]; PName [65; 32]; PRef 7 0]); ([76], PNull)] in
+  storable v /\ vdepth v <= MAX_DEPTH /\ exists b, ser v = Ok b /\ parse no_resolve F_ANY b = Ok v.
+Proof.
+  split; [|split; [vm_compute; discriminate|]].
+  2:{ eexists. split. - vm_compute. reflexivity. - vm_compute. reflexivity. }
+  assert (W : forall l, forallb (fun b => b <? 256) l = true -> wf_bytes l).
+  { intros l H. apply Forall_forall. intros b Hin. rewrite forallb_forall in H. apply N.ltb_lt. apply H. exact Hin. }
+  apply st_dict.
+  - apply NoDup_cons; [cbn; intros [H|[]]; discriminate|]. apply NoDup_cons; [intros []|constructor].
+  - apply Forall_cons; [|apply Forall_cons; [|apply Forall_nil]]; cbn [fst snd].
+    + split; [apply W; reflexivity|]. split; [reflexivity|].
+      apply st_arr. apply Forall_cons; [apply st_int; lia|].
+      apply Forall_cons; [apply st_str; apply W; reflexivity|].
+      apply Forall_cons; [apply st_name; [apply W; reflexivity|reflexivity]|].
+      apply Forall_cons; [apply st_ref; reflexivity|apply Forall_nil].
+    + split; [apply W; reflexivity|]. split; [reflexivity|apply st_null].
+Qed.
